@@ -37,7 +37,41 @@ def tie_margin(u, os_):
     return min(f, 1 - f)
 
 
+def gen_many_small(rng, idx):
+    """Bottom-up, many small frames in one batch: the batch dimension exceeds every other dimension
+    of the PAF tensor (8 x 8..12 cells, 2 channels) and each frame holds one 2-node animal whose edge
+    is longer than the distance-penalty length of a single frame, so any quantity that is (wrongly)
+    derived from the batch size changes the line score."""
+    H, W = 32, rng.choice([32, 48])
+    n_frames = rng.randint(14, 18)
+    c = {"kind": "bottomup", "idx": idx, "H": H, "W": W, "os_c": 2, "os_i": 2, "crop": 32, "ms": rng.choice([1, 8, 16]),
+         "refinement": rng.choice([None, "integral"]), "max_instances": None, "n_nodes": 2, "paf_os": 4,
+         "batch_mid": rng.randint(2, 4), "n_videos": rng.choice([1, 2]), "family": "many_small_frames"}
+    frames = []
+    for f in range(n_frames):
+        if rng.random() < 0.15:
+            frames.append([])
+            continue
+        for _ in range(200):
+            cx = F(W, 2) + F(rng.randrange(-16, 17), 8)
+            cy = F(H, 2) + F(rng.randrange(-32, 33), 8)
+            half = F(rng.choice([9, 10, 11]), 2) + F(rng.choice([1, 3]), 8)        # edge 9.25 .. 11.75 px
+            kps = [(cx - half, cy + F(rng.choice([-5, 5]), 8)), (cx + half, cy + F(rng.choice([-3, 3]), 8) + 1)]
+            if all(tie_margin(x, 2) >= F(1, 8) and tie_margin(y, 2) >= F(1, 8) for x, y in kps):
+                break
+        frames.append([{"kps": kps, "cent": (cx, cy)}])
+    if all(len(a) == 0 for a in frames):
+        return gen_many_small(rng, idx)
+    c["frames"] = frames
+    order = list(range(n_frames))
+    rng.shuffle(order)
+    c["perm"] = order
+    return c
+
+
 def gen_case(rng, idx, kind):
+    if kind == "bottomup" and rng.random() < 0.2:
+        return gen_many_small(rng, idx)
     H = rng.choice([96, 112, 128, 144])
     W = rng.choice([96, 112, 128, 160])
     n_frames = rng.randint(2, 5)
